@@ -80,7 +80,8 @@ func (c *Criteria) countWithPrefix(prefix string) int {
 }
 
 func (c *Criteria) SortByWeights(weights Weights) *WeightedCriteria {
-	result := make(WeightedCriteria, len(weights))
+	// one entry per criterion: weights may hold entries for criteria that are not declared
+	result := make(WeightedCriteria, len(*c))
 	for i, criterion := range *c {
 		result[i] = WeightedCriterion{
 			Criterion: criterion,
